@@ -31,7 +31,7 @@ MANIFEST = dict(
 
 CFG = {
     "quick": dict(mc="MC_Convert.cfg", gen="Gen_Convert.cfg", full16=False, nrand=24, ks=(0, 7, 8, 15, 16, 31, 32, 63, 64),
-                  text_frac=0.18, long_digits=(40, 310), chunks=8, api_stride={"data": 2, "iter": 3},
+                  text_frac=0.18, long_digits=(40, 310), chunks=8, api_stride={"data": 3, "iter": 4},
                   bn=("MC_BigNat.cfg", "MC_BigNat_16.cfg")),
     "thorough": dict(mc="MC_Convert_t.cfg", gen="Gen_Convert_t.cfg", full16=True, nrand=400, ks=tuple(range(0, 65)),
                      text_frac=1.0, long_digits=(40, 310, 4950), chunks=16, api_stride={"data": 1, "iter": 1},
